@@ -18,13 +18,15 @@ LEVEL = "proof"
 NSHARDS = 16
 
 
-def run_impl(src, cases):
+def run_impl(src, cases, iso=False):
+    """default: each of the NSHARDS worker processes parses its documents (cases[k::NSHARDS], languages interleaved) one after the
+    other; iso=True: every case in the state of a fresh process (forked from a parent that never parsed), after its own "pre" documents"""
     shards = [cases[k::NSHARDS] for k in range(NSHARDS)]
 
     def one(sh):
         if not sh:
             return {}
-        rc, out = core.run_impl("vt.harness.c02_impl", [], src=src, input="".join(json.dumps(c) + "\n" for c in sh), timeout=3000)
+        rc, out = core.run_impl("vt.harness.c02_impl", ["iso"] if iso else [], src=src, input="".join(json.dumps(c) + "\n" for c in sh), timeout=3000)
         res = {}
         for ln in out.splitlines():
             if ln.startswith('{"id"'):
@@ -136,7 +138,7 @@ def _walk_leaves(trees):
             yield from _walk_leaves(t[2])
 
 
-def gen_docs(run):
+def gen_docs(run, src):
     rng = run.rng
     n = 5000 if run.tier == "quick" else 40000
     docs = []
@@ -146,12 +148,23 @@ def gen_docs(run):
         if fn.endswith(".json"):
             with open(os.path.join(cdir, fn)) as fh:
                 c = json.load(fh)
-            docs.append({"id": "corpus:" + fn, "doc": c["doc"], "raw": G.serialise(_FixedRng(), c["doc"]), "lang": c.get("lang", "en")})
+            d = {"id": "corpus:" + fn, "doc": c["doc"], "raw": G.serialise(_FixedRng(), c["doc"]), "lang": c.get("lang", "en")}
+            if c.get("history"):
+                # a past failure that needs earlier documents in the same process: replayed after exactly those, in a fresh process
+                d["history"] = [{"doc": h["doc"], "raw": G.serialise(_FixedRng(), h["doc"]), "lang": h.get("lang", "en")} for h in c["history"]]
+            docs.append(d)
+    ns = ns_oracle(src)
     for i in range(n):
-        g = G.Gen(rng, rng.choice([1, 2, 4, 8] if run.tier == "quick" else [1, 2, 4, 8, 16]))
+        # the language is drawn at random: every worker process (documents i, i+16, ...) sees all 12 languages interleaved
+        lang = rng.choice(c01_gen.LANGS)
+        g = G.Gen(rng, rng.choice([1, 2, 4, 8] if run.tier == "quick" else [1, 2, 4, 8, 16]), ns=ns, lang=lang, captions=True)
         d = g.doc()
-        docs.append({"id": i, "doc": d, "raw": G.serialise(rng, d), "lang": c01_gen.LANGS[i % 12]})
+        docs.append({"id": i, "doc": d, "raw": G.serialise(rng, d), "lang": lang})
     return docs
+
+
+def ns_oracle(src):
+    return G.NsOracle(os.path.join(src, "mwlib", "network", "known_sites"), c01_gen.LANGS)
 
 
 def _sub(e):
@@ -165,6 +178,8 @@ def _sub(e):
         return e[1], lambda r: (k, r)
     if k == "apo":
         return e[3], lambda r: (k, e[1], e[2], r, e[4])
+    if k == "nslink":
+        return (e[5], lambda r: (k, e[1], e[2], e[3], e[4], r)) if e[5] else None
     return None
 
 
@@ -215,15 +230,23 @@ def red_block(b):
                     yield (k, b[1][:j] + [(pfx, inl, r)] + b[1][j + 1:])
     elif k == "table":
         rows = b[1]
+        cap = b[2] if len(b) > 2 else None
+        tail = (cap,) if cap is not None else ()
+        if cap is not None:
+            yield (k, rows)
+            if cap[0]:
+                yield (k, rows, ("", cap[1]))
+            for r in red_inline(cap[1]):
+                yield (k, rows, (cap[0], r))
         for j, row in enumerate(rows):
             if len(rows) > 1:
-                yield (k, rows[:j] + rows[j + 1:])
+                yield (k, rows[:j] + rows[j + 1:]) + tail
             for c, (hdr, body) in enumerate(row):
                 if len(row) > 1:
-                    yield (k, rows[:j] + [row[:c] + row[c + 1:]] + rows[j + 1:])
+                    yield (k, rows[:j] + [row[:c] + row[c + 1:]] + rows[j + 1:]) + tail
                 subs = red_inline(body[1]) if body[0] == "inl" else red_blocks(body[1])
                 for r in subs:
-                    yield (k, rows[:j] + [row[:c] + [(hdr, (body[0], r))] + row[c + 1:]] + rows[j + 1:])
+                    yield (k, rows[:j] + [row[:c] + [(hdr, (body[0], r))] + row[c + 1:]] + rows[j + 1:]) + tail
 
 
 def red_blocks(blocks):
@@ -234,6 +257,13 @@ def red_blocks(blocks):
     for i, b in enumerate(blocks):
         if len(blocks) > 1:
             yield blocks[:i] + blocks[i + 1:]
+        if b[0] == "table":
+            # a table replaced by the content of one of its cells (or of its caption)
+            for row in b[1]:
+                for _h, body in row:
+                    yield blocks[:i] + ([("p", [body[1]])] if body[0] == "inl" else list(body[1])) + blocks[i + 1:]
+            if len(b) > 2 and b[2] is not None:
+                yield blocks[:i] + [("p", [b[2][1]])] + blocks[i + 1:]
         for r in red_block(b):
             yield blocks[:i] + [r] + blocks[i + 1:]
 
@@ -249,6 +279,8 @@ def _line_inlines(blocks):
             for _p, inl, _d in b[1]:
                 yield inl
         elif k == "table":
+            if len(b) > 2 and b[2] is not None:
+                yield b[2][1]
             for row in b[1]:
                 for _h, body in row:
                     if body[0] == "inl":
@@ -266,11 +298,20 @@ def well_formed(doc):
     return True
 
 
-def shrink(src, case):
+def shrink(src, case, history=(), target=None):
     """greedy minimisation on the grammar: blocks, lines, rows, cells, then inline elements (dropped or replaced by their
-    body), keeping the document well-formed and a mismatch of the same kind; every step takes the smallest failing candidate"""
-    doc = case["doc"]
+    body), keeping the document well-formed and a mismatch of the same kind; every step takes the smallest failing candidate.
+    Every candidate runs in the state of a fresh process after the documents of `history`.
+    target=None: `case` is the mismatching document and is shrunk; target=j: the j-th document of `history` is shrunk while the
+    mismatch of the (unchanged) document `case` is kept."""
+    history = [dict(h) for h in history]
+    doc = case["doc"] if target is None else history[target]["doc"]
+    lang = case["lang"] if target is None else history[target]["lang"]
     kind = case["kind"]
+
+    def pre_of(hs):
+        return [{"raw": h["raw"], "lang": h["lang"]} for h in hs]
+    limit = 1500 if not history else 300
     for _round in range(60):
         cands = []
         seen = set()
@@ -281,17 +322,22 @@ def shrink(src, case):
             if raw in seen:
                 continue
             seen.add(raw)
-            cands.append({"id": len(cands), "doc": d2, "raw": raw, "lang": case["lang"]})
+            cands.append({"id": len(cands), "doc": d2, "raw": raw, "lang": lang})
         if not cands:
             break
         cands.sort(key=lambda c: len(c["raw"]))
-        cands = cands[:1500]
-        res = run_impl(src, [{"id": c["id"], "raw": c["raw"], "lang": c["lang"]} for c in cands])
+        cands = cands[:limit]
+        if target is None:
+            jobs = [{"id": c["id"], "raw": c["raw"], "lang": lang, "pre": pre_of(history)} for c in cands]
+        else:
+            jobs = [{"id": c["id"], "raw": case["raw"], "lang": case["lang"],
+                     "pre": pre_of(history[:target] + [c] + history[target + 1:])} for c in cands]
+        res = run_impl(src, jobs, iso=True)
         nxt = None
         for c in cands:
             r = res.get(c["id"])
             if r and "tree" in r:
-                v = compare(c["doc"], r["tree"])
+                v = compare(c["doc"] if target is None else case["doc"], r["tree"])
                 if v and v[0] == kind:
                     nxt = c
                     break
@@ -299,6 +345,58 @@ def shrink(src, case):
             break
         doc = nxt["doc"]
     return doc, G.serialise(_FixedRng(), doc)
+
+
+def mismatch(src, case, history=()):
+    """the oracle on one document in the state of a fresh process after the documents of `history`: None or (kind, detail)"""
+    r = run_impl(src, [{"id": 0, "raw": case["raw"], "lang": case["lang"],
+                        "pre": [{"raw": h["raw"], "lang": h["lang"]} for h in history]}], iso=True).get(0)
+    if r is None:
+        return None
+    if "exc" in r:
+        return ("exception", r["exc"])
+    return compare(case["doc"], r["tree"])
+
+
+def minimise_history(src, case, earlier):
+    """`case` mismatches after the documents `earlier` (those its worker process parsed before it) but not in a fresh process:
+    find a short history that still produces a mismatch of the same kind.  First every single earlier document (the state one parse
+    leaves behind), then delta debugging on the list, order kept."""
+    kind = case["kind"]
+
+    def fails_all(hists):
+        jobs = [{"id": i, "raw": case["raw"], "lang": case["lang"], "pre": [{"raw": h["raw"], "lang": h["lang"]} for h in hs]}
+                for i, hs in enumerate(hists)]
+        res = run_impl(src, jobs, iso=True)
+        out = []
+        for i in range(len(hists)):
+            r = res.get(i)
+            v = None
+            if r is not None:
+                v = ("exception", r["exc"]) if "exc" in r else compare(case["doc"], r["tree"])
+            out.append(bool(v) and v[0] == kind)
+        return out
+    if not fails_all([earlier])[0]:
+        return None
+    singles = fails_all([[h] for h in earlier])
+    ok = [h for h, f in zip(earlier, singles) if f]
+    if ok:
+        return [min(ok, key=lambda h: len(h["raw"]))]
+    hist = list(earlier)
+    n = 2
+    while len(hist) >= 2:
+        chunk = max(1, len(hist) // n)
+        cands = [hist[:i] + hist[i + chunk:] for i in range(0, len(hist), chunk)]
+        flags = fails_all(cands)
+        for c, f in zip(cands, flags):
+            if f:
+                hist, n = c, max(n - 1, 2)
+                break
+        else:
+            if chunk == 1:
+                break
+            n = min(len(hist), n * 2)
+    return hist
 
 
 class _FixedRng:
@@ -342,12 +440,20 @@ def sx_inl(inl, ids):
             out.append("(4 %d %s)" % (ids(e[1]), sx_inl(e[2], ids)))
         elif k == "ref":
             out.append("(5 %s)" % sx_inl(e[1], ids))
+        elif k == "nslink":
+            # for the Gallina denotation a link target is an opaque name: label (target, kind, full target) -> one name; a link
+            # without label shows its target
+            out.append("(3 %d %s)" % (ids(link_name(G.nslink_label(e))), sx_inl(e[5], ids) if e[5] else "(0 %d)" % ids(e[1])))
     return " ".join(out)
 
 
+def link_name(lab):
+    return lab[1] if len(lab) == 2 else "\x00".join(map(str, lab[1:]))
+
+
 def sx_doc(doc, ids):
-    """s-expression of a document for the extracted `denote`; None when the document uses block-valued cells
-    (the Gallina grammar has inline cells only)"""
+    """s-expression of a document for the extracted `denote`; None when the document uses block-valued cells or a table
+    caption (the Gallina grammar has inline cells only and no captions)"""
     out = []
     for b in doc:
         k = b[0]
@@ -359,6 +465,8 @@ def sx_doc(doc, ids):
             out.append("(12 %s)" % " ".join("((%s) (%s)%s)" % (" ".join(str(ord(ch)) for ch in p), sx_inl(inl, ids),
                                                                  "" if d is None else " (%s)" % sx_inl(d, ids)) for p, inl, d in b[1]))
         elif k == "table":
+            if len(b) > 2 and b[2] is not None:
+                return None
             rows = []
             for row in b[1]:
                 cells = []
@@ -380,7 +488,9 @@ def with_ids(trees, ids):
             out.append(["L", ids(t[1]), t[2], t[3]])
         else:
             lab = list(t[1])
-            if lab[0] in ("link", "ext"):
+            if lab[0] == "link":
+                lab = ["link", ids(link_name(lab))]
+            elif lab[0] == "ext":
                 lab[1] = ids(lab[1])
             out.append(["N", lab, with_ids(t[2], ids)])
     return out
@@ -496,6 +606,8 @@ def _inline_kinds(inl, acc):
             acc["repeated-token:" + e[1]] = acc.get("repeated-token:" + e[1], 0) + 1
         elif e[0] == "apo":
             acc["apostrophe-run:%s-%s" % (e[1], e[2])] = 1
+        elif e[0] == "nslink":
+            acc["namespace-link:%s%s" % (e[3], "-labelled" if e[5] else "")] = 1
         sub = _sub(e)
         if sub:
             _inline_kinds(sub[0], acc)
@@ -512,7 +624,43 @@ def features(doc):
                     _inline_kinds(d, acc)
     for inl in _line_inlines(doc):
         _inline_kinds(inl, acc)
+    _captions(doc, acc)
     return {k.split(":")[0] if k.startswith("repeated") else k for k, n in acc.items() if not k.startswith("repeated") or n >= 2}
+
+
+def _has(inl, kinds):
+    for e in inl:
+        if e[0] in kinds:
+            return True
+        sub = _sub(e)
+        if sub and _has(sub[0], kinds):
+            return True
+    return False
+
+
+def _labelled(inl):
+    for e in inl:
+        if e[0] in ("link", "nslink") and e[-1]:
+            return True
+        sub = _sub(e)
+        if sub and _labelled(sub[0]):
+            return True
+    return False
+
+
+def _captions(blocks, acc):
+    for b in blocks:
+        if b[0] != "table":
+            continue
+        if len(b) > 2 and b[2] is not None:
+            attrs, inl = b[2]
+            what = ("labelled-link" if _labelled(inl) else "link" if _has(inl, ("link", "nslink")) else
+                    "style" if _has(inl, ("b", "i", "apo")) else "plain")
+            acc["caption:%s-attributes,%s" % ("with" if attrs else "without", what)] = 1
+        for row in b[1]:
+            for _h, body in row:
+                if body[0] == "blocks":
+                    _captions(body[1], acc)
 
 
 def _longq(raw):
@@ -533,14 +681,30 @@ def check(run):
                 "inside longer text runs; (b) apostrophe runs one longer than the markup (Gen.put_apo, at most one per physical "
                 "line, in paragraphs, list items and definition terms/descriptions, headings, cells): ''x'''s, '''x''''s, w'''x'', "
                 "w''''x''' with words or a link as body, the literal apostrophe denoted as text in front of the run (MediaWiki "
-                "doQuotes); one of the 12 languages per document; distinct = distinct serialised text; non-trivial = at least two "
+                "doQuotes); (c) table captions '|+ inline' and '|+ attributes | inline' (45% of the tables, also of tables nested in cells) "
+                "holding any inline content - links with labels (whose pipe is not the attribute separator), namespace links, styles, named URLs, "
+                "refs, repeated tokens, surplus apostrophes - denoted as a caption node in front of the rows; (d) namespace-prefixed links "
+                "[[Prefix:Name]], [[:Prefix:Name]], with and without label, in every inline position: the prefix is drawn from the local names, "
+                "canonical names and aliases of ALL namespaces of ALL 12 bundled site languages (category and file names preferred) and from "
+                "interwiki / language prefixes, in original, lower and upper case, so that in the language of the document it denotes a "
+                "category link, an image link, another namespace, a language / interwiki link, or nothing (an article whose title contains a "
+                "colon); kind and fully qualified target are computed from the raw siteinfo JSON of that language by G.NsOracle, not by "
+                "mwlib's NsHandler; the language of a document is drawn at random and each of the 16 worker processes parses its ~1/16 of "
+                "the documents one after the other, all 12 languages interleaved (as a render server does) - a mismatch that does not show "
+                "in a fresh process is minimised together with its HISTORY (first every single earlier document of that worker, then "
+                "delta debugging on the list; then the history documents and the document itself are shrunk on the grammar) and the replay "
+                "carries that history; distinct = distinct serialised text; non-trivial = at least two "
                 "block kinds or nesting; every mismatch is minimised on the grammar (blocks, lines, rows, cells, inline elements "
                 "dropped or replaced by their body, keeping the document well-formed) before it is reported")
     run.trusted = ["Coq 8.16.1 kernel (coqc)", "extraction (ExtrOcamlBasic directives only) + ocaml/c02/driver.ml",
                    "the document grammar, its serialiser (Python) and the canonicaliser of the advanced tree (vt/harness/c02_impl.py: "
                    "which node classes count as section/list/item/table/row/cell/pre/ref/link, Strong/Emphasized as leaf attributes, "
                    "Paragraph nodes transparent; text leaves = maximal alphanumeric runs and single punctuation characters of "
-                   "the Text captions, whitespace is not compared)",
+                   "the Text captions, whitespace is not compared; a link without label shows its target; ArticleLink = plain link label, "
+                   "every other Link class = label with kind and full_target)",
+                   "the bundled siteinfo JSON files as the definition of what a prefix means in a language (namespaces: '*', 'canonical', "
+                   "namespacealiases, case-insensitive; interwikimap: prefix, 'language'); lookup re-implemented in G.NsOracle",
+                   "vt/harness/c02_impl.py mode iso: a child forked from a parent that imported mwlib but never parsed stands for a fresh process",
                    "hand-written Gallina models of the section builder, ParseLines.analyze and compute_path (coq/C01, coq/C02)"]
     run.assumptions = ["only well-formed constructs of the grammar; apostrophe runs adjacent only as the runs of five of a span touching the edge "
                        "of its enclosing span, or as ONE run per physical line that is one apostrophe longer than the markup (3 for "
@@ -548,7 +712,12 @@ def check(run):
                        "run it re-reads by the preceding characters; with one candidate the reading is determined); no newline inside "
                        "list items, headings or one-line cells; a colon in a list line whose prefix contains ';' only as "
                        "the separator of a one-line definition item; no '|' as text in tables and link labels; a repeated token never "
-                       "opens a line; only punctuation is glued to links; every table row introduced by |-",
+                       "opens a line; only punctuation is glued to links; every table row introduced by |-; a caption is one line "
+                       "directly after the {| line",
+                       "namespace-prefixed links: prefixes are single words of letters whose casing round-trips; a prefix that is both a "
+                       "namespace name and an interwiki prefix in the document's language is not generated (MediaWiki resolves the namespace "
+                       "first, mwlib the interwiki prefix); category links have no label (it would be a sort key), file links at most a "
+                       "plain caption and no thumb/frame/alignment option; target names start with a capital letter",
                        "OPEN DEFECT (fixes/C02-literal-apostrophe-side.diff): mwlib gives the literal apostrophe of an over-long run the "
                        "style of the text BEHIND the run, MediaWiki that of the text in front of it (''x'''s: <i>x</i>'s vs <i>x'</i>s). "
                        "Until the fix is in /repo the bold/italic attribute of that one character is compared only with "
@@ -557,12 +726,13 @@ def check(run):
                        "paragraph nodes are compared only for paragraphs directly in a section body (mwlib also wraps lists and "
                        "preformatted blocks into Paragraph nodes, which the property does not speak about)"]
     src = core.snapshot()
-    docs = gen_docs(run)
+    docs = gen_docs(run, src)
     proofs(run, src, docs)
     results = run_impl(src, [{"id": d["id"], "raw": d["raw"], "lang": d["lang"]} for d in docs])
     bykind = {}
     stats = collections.Counter()
     fams = collections.Counter()
+    langs = collections.Counter()
     sizes = collections.Counter()
     missing = 0
     for d in docs:
@@ -575,6 +745,7 @@ def check(run):
         run.count(d["raw"], nontrivial=len(kinds) >= 2 or "table" in kinds or "list" in kinds)
         for k in kinds:
             stats[k] += 1
+        langs[d["lang"]] += 1
         for k in features(d["doc"]):
             fams[k] += 1
         sizes["<=20" if nleaves <= 20 else "<=100" if nleaves <= 100 else "<=400" if nleaves <= 400 else ">400"] += 1
@@ -591,32 +762,71 @@ def check(run):
         elif len(run.samples) < 4 and len(d["raw"]) < 260 and len(kinds) >= 2:
             run.sample({"raw": d["raw"], "lang": d["lang"], "denoted_leaves": [[w, [list(c) for c in ch], b, i] for w, ch, b, i in G.leaves(G.strip_p(G.denote(d["doc"])))][:12]})
     run.obligation("oracle-harness-complete", missing == 0, "%d documents without a result" % missing)
+    for d in docs:
+        if d.get("history"):
+            v = mismatch(src, d, d["history"])
+            if v:
+                bykind.setdefault((v[0], "corpus-history"), (dict(d, kind=v[0]), v[1]))
     hits = {}
-    for key in sorted(bykind):
+    pos = {d["id"]: k for k, d in enumerate(docs)}
+    for key in sorted(bykind, key=str):
         case, detail = bykind[key]
-        if case["kind"] != "exception":
-            doc, raw = shrink(src, case)
-            r = run_impl(src, [{"id": 0, "raw": raw, "lang": case["lang"]}]).get(0)
-            v = compare(doc, r["tree"]) if r and "tree" in r else None
+        kind = case["kind"]
+        history = []
+        # a document is judged on its own: does the mismatch show in a fresh process?  If not, it is caused by what the worker process
+        # parsed before it (state shared between parses, e.g. between site languages): minimise that history as well
+        alone = mismatch(src, case) if key[1] != "corpus-history" else None
+        if key[1] == "corpus-history":
+            history = [dict(h) for h in case["history"]]
+        elif not (alone and alone[0] == kind):
+            k = pos[case["id"]]
+            earlier = [docs[j] for j in range(k % NSHARDS, k, NSHARDS)]
+            hist = minimise_history(src, case, earlier)
+            if hist is None:
+                if alone:
+                    case, detail, kind = dict(case, kind=alone[0]), alone[1], alone[0]
+                else:
+                    run.obligation("mismatch-reproducible:%s" % kind, False, "document %r (%s) mismatched (%s) in its worker process but neither alone "
+                                   "nor after the same earlier documents in a fresh process" % (case["raw"][:200], case["lang"], detail[:200]))
+                    continue
+            else:
+                history = [{"doc": h["doc"], "raw": h["raw"], "lang": h["lang"]} for h in hist]
+        if kind != "exception":
+            doc, raw = shrink(src, case, history)
+            case = dict(case, doc=doc, raw=raw)
+            if len(history) <= 3:
+                for j in range(len(history)):
+                    hdoc, hraw = shrink(src, case, history, target=j)
+                    history[j] = {"doc": hdoc, "raw": hraw, "lang": history[j]["lang"]}
+                if history:
+                    doc, raw = shrink(src, case, history)
+                    case = dict(case, doc=doc, raw=raw)
+            v = mismatch(src, case, history)
             if v:
                 detail = v[1]
         else:
             doc, raw = case["doc"], case["raw"]
         # fingerprint = kind of mismatch + whether a line with more than 32 apostrophe runs is (still) involved in the MINIMISED
-        # document (compute_path prunes to 32 states, styleanalyzer.py:102)
-        kind = case["kind"]
+        # document (compute_path prunes to 32 states, styleanalyzer.py:102) + whether it needs earlier documents in the same process
         fp = "quotes:line-with-more-than-32-quote-runs" if _longq(raw) and kind in ("style", "dropped", "extra", "duplicated", "order") else kind
+        if history:
+            fp += ":after-other-documents"
         if fp not in hits or len(raw) < len(hits[fp][1]):
-            hits[fp] = (doc, raw, case, detail)
+            hits[fp] = (doc, raw, case, detail, history)
     for fp in sorted(hits):
-        doc, raw, case, detail = hits[fp]
+        doc, raw, case, detail, history = hits[fp]
         kind = case["kind"]
-        run.hit("c02:" + fp, "parse tree differs from the denotation (%s): %s; document: %r" % (kind, detail, raw[:400]),
-                {"doc": doc, "raw": raw, "lang": case["lang"], "kind": kind, "detail": detail})
+        after = "" if not history else " - in a process that has parsed %s before" % ", ".join("%r (%s)" % (h["raw"][:200], h["lang"]) for h in history)
+        run.hit("c02:" + fp, "parse tree differs from the denotation (%s): %s; document (%s): %r%s" % (kind, detail, case["lang"], raw[:400], after),
+                {"doc": doc, "raw": raw, "lang": case["lang"], "kind": kind, "detail": detail,
+                 "history": [{"raw": h["raw"], "lang": h["lang"]} for h in history]})
     run.coverage["exhaustive"] = False
     run.coverage["input_distribution"] = {"documents_containing_block_kind": dict(stats), "leaves_per_document": dict(sizes),
                                           "documents_with_non_unique_leaf_family": dict(fams),
-                                          "languages": 12}
+                                          "languages": dict(langs),
+                                          "worker_processes": NSHARDS,
+                                          "languages_interleaved_per_worker_process": min(
+                                              len({d["lang"] for d in docs[k::NSHARDS]}) for k in range(NSHARDS))}
 
 
 def replay(obj):
@@ -625,8 +835,10 @@ def replay(obj):
     if "raw" not in rp:
         print(json.dumps(rp, indent=1))
         return 1
-    res = run_impl(src, [{"id": 0, "raw": rp["raw"], "lang": rp.get("lang", "de")}])
+    res = run_impl(src, [{"id": 0, "raw": rp["raw"], "lang": rp.get("lang", "de"), "pre": rp.get("history") or []}], iso=True)
     r = res.get(0)
+    for h in rp.get("history") or []:
+        print("parsed before, same process (%s): %r" % (h["lang"], h["raw"]))
     print(rp["raw"])
     if r is None or "exc" in r:
         print("exception:", r)
